@@ -76,6 +76,7 @@ func c05World(t *testing.T, r *simcore.Run) any {
 	}
 	tp := r.Tape
 	useNTS := tp.Bool(1, 3, "nts")
+	ipDrawFamily(r)
 	var w *ipWorld
 	var cl *client.IPClient
 	var nw *ntsWorld
